@@ -38,7 +38,7 @@ ASSUMPTIONS = [
     "non-reloading environment does after its loader attribute is replaced)",
 ]
 NSHARDS = {"quick": 16, "thorough": 16}
-BUDGET_S = {"quick": 90, "thorough": 900}
+BUDGET_S = {"quick": 90, "thorough": 1200}
 FLOORS = {
     "quick": {"evaluations": 36000, "distinct": 1300,
               "counters": {"lookups": 90000, "loader_calls": 80000, "served_from_cache": 16000,
